@@ -14,4 +14,4 @@ RULE = ("catalogue robots with box link meshes, random base/tool isometries, env
         "compared with an independently assembled Tool(Base(OPWKinematics)) stack filtered by collides(); non-trivial = the stack returned a solution")
 EXPLANATION = LEVEL_NOTE
 ASSUMPTIONS = []
-correspondence, search = G.make("C11", sample_keys=("case", "ctor", "entry", "n_stack", "n_free", "nsol", "direct"))
+correspondence, search = G.make("C11", sample_keys=("case", "ctor", "entry", "n_stack", "n_free", "nsol", "direct"), search_n=10000)
